@@ -1,12 +1,16 @@
 /- One line per stream handler. -/
 import Comet.Driver.Flat
+import Comet.Driver.HNSW
 import Comet.Driver.Dist
 import Comet.Driver.Atomic
 import Comet.Driver.BM25
 import Comet.Driver.HSearch
+import Comet.Driver.Vec5
 namespace Comet.Driver
 
 def handlers : List Handler := [
+  Vec5Stream.handler,
+  HNSWStream.handler,
   HSearchStream.handler,
   BM25Stream.handler,
   AtomicStream.handler,
